@@ -25,7 +25,7 @@ def base_cases(thorough):
       out += cs[::st]
       out += [c for k, c in enumerate(cs) if k % st and 'K(a, ' in c.text()]     # every K-best aggregate program (row-arrival order matters most there)
   for c in families.c03_cases(False):
-    if c.info['depth'] in (2, 3, 21) and c.info['shape'] in ('tc_right', 'mutual_cut', 'even_odd', 'mutual_flat_small', 'ring3', 'shortest_path', 'through_functor', 'two_components', 'counter_set'):
+    if c.info['depth'] in (2, 3, 21) and c.info['shape'] in ('tc_right', 'mutual_cut', 'even_odd', 'mutual_flat_small', 'ring3', 'shortest_path', 'through_functor', 'two_components', 'counter_set', 'tc_one_rule_base_first', 'tc_one_rule_base_last', 'tc_one_rule_bag_base_first', 'tc_one_rule_bag_base_last'):
       c.dbs = c.dbs[::4]
       out.append(c)
   out += array_cases()
